@@ -1203,3 +1203,85 @@ pub proof fn lemma_request_order(s: Seq<u8>, multi: bool, sbf: bool, ign: bool, 
         lemma_hdrs_end_bound(s, c6, Seq::empty(), cfg, cap);
     }
 }
+
+// ------------------------------------------------------------------------------------------------ C11: honest Partial
+// For every buffer on which the oracle says Partial there is an explicit continuation on which it says Complete
+// (two stated exceptions for messages: target not yet terminated but not completable to valid UTF-8; header array full).
+pub proof fn lemma_run_then_stop(cls: spec_fn(u8) -> bool, s: Seq<u8>, t: Seq<u8>, i: int)
+    requires 0 <= i <= s.len(), first_not(cls, s, i) >= s.len(), t.len() > 0, !cls(t[0]),
+    ensures first_not(cls, s + t, i) == s.len()
+{
+    lemma_first_not_props(cls, s, i);
+    lemma_append_index(s, t);
+    assert((s + t)[s.len() as int] == t[0]);
+    assert forall|k: int| i <= k < s.len() implies cls(#[trigger] (s + t)[k]) by { assert((s + t)[k] == s[k]); }
+    lemma_first_not_char(cls, s + t, i, s.len() as int);
+}
+pub proof fn lemma_run_one_more(cls: spec_fn(u8) -> bool, s: Seq<u8>, t: Seq<u8>, i: int)
+    requires 0 <= i <= s.len(), first_not(cls, s, i) >= s.len(), t.len() > 1, cls(t[0]), !cls(t[1]),
+    ensures first_not(cls, s + t, i) == s.len() + 1
+{
+    lemma_first_not_props(cls, s, i);
+    lemma_append_index(s, t);
+    assert((s + t)[s.len() as int] == t[0]);
+    assert((s + t)[s.len() as int + 1] == t[1]);
+    assert forall|k: int| i <= k < s.len() + 1 implies cls(#[trigger] (s + t)[k]) by { if k < s.len() { assert((s + t)[k] == s[k]); } }
+    lemma_first_not_char(cls, s + t, i, s.len() as int + 1);
+}
+pub open spec fn chunk_completion(s: Seq<u8>) -> Seq<u8> {
+    let d = first_not(cls_hex(), s, 0);
+    if s.len() == 0 { seq![0x30u8, 0x0d, 0x0a] }
+    else if s[s.len() - 1] == 0x0d && d < s.len() && (first_not(cls_spht(), s, d) == s.len() - 1
+        || (first_not(cls_spht(), s, d) < s.len() && s[first_not(cls_spht(), s, d)] == 0x3b && first_not(cls_not_cr(), s, first_not(cls_spht(), s, d) + 1) == s.len() - 1)) { seq![0x0au8] }
+    else { seq![0x0du8, 0x0a] }
+}
+// @tags C11 C09
+pub proof fn lemma_chunk_completable(s: Seq<u8>)
+    requires spec_chunk(s) is Partial,
+    ensures spec_chunk(s + chunk_completion(s)) is Complete
+{
+    let t = chunk_completion(s);
+    let u = s + t;
+    lemma_append_index(s, t);
+    lemma_first_not_props(cls_hex(), s, 0);
+    let d = first_not(cls_hex(), s, 0);
+    if s.len() == 0 {
+        assert(u =~= seq![0x30u8, 0x0d, 0x0a]);
+        reveal_with_fuel(first_not, 4);
+        assert(first_not(cls_hex(), u, 0) == 1);
+        assert(first_not(cls_spht(), u, 1) == 1);
+        assert(u.subrange(0, 1) =~= seq![0x30u8]);
+    } else if d >= s.len() {
+        // all digits so far (1..=16 of them): finish with CRLF
+        lemma_run_then_stop(cls_hex(), s, t, 0);
+        assert(u[d] == 0x0d && u[d + 1] == 0x0a);
+        lemma_first_not_char(cls_spht(), u, d, d);
+    } else {
+        lemma_first_not_append(cls_hex(), s, t, 0);
+        lemma_first_not_props(cls_spht(), s, d);
+        let w = first_not(cls_spht(), s, d);
+        if w >= s.len() {
+            lemma_run_then_stop(cls_spht(), s, t, d);
+            assert(u[w] == 0x0d && u[w + 1] == 0x0a);
+        } else {
+            lemma_first_not_append(cls_spht(), s, t, d);
+            assert(u[w] == s[w]);
+            if s[w] == 0x3b {
+                lemma_first_not_props(cls_not_cr(), s, w + 1);
+                let e = first_not(cls_not_cr(), s, w + 1);
+                if e >= s.len() {
+                    lemma_run_then_stop(cls_not_cr(), s, t, w + 1);
+                    assert(u[e] == 0x0d && u[e + 1] == 0x0a);
+                } else {
+                    lemma_first_not_append(cls_not_cr(), s, t, w + 1);
+                    assert(u[e] == s[e]);
+                    assert(e == s.len() - 1);
+                    assert(u[e + 1] == 0x0a);
+                }
+            } else {
+                assert(s[w] == 0x0d && w == s.len() - 1);
+                assert(u[w + 1] == 0x0a);
+            }
+        }
+    }
+}
